@@ -41,6 +41,15 @@ extern MPT_STRUCT(config_item) *mpt_config_item_reserve(_MPT_UARRAY_TYPE(MPT_STR
 			errno = EINVAL;
 			return 0;
 		}
+		/* reserved element is writable: table must not be shared with array copies */
+		if (buf->_vptr->get_flags(buf) & MPT_ENUM(BufferShared)) {
+			MPT_STRUCT(buffer) *own = arr->_buf;
+			if (!(own = own->_vptr->detach(own, own->_used))) {
+				return 0;
+			}
+			arr->_buf = own;
+			buf = own;
+		}
 		item_count = buf->_used / sizeof(*item);
 	}
 	item = (MPT_STRUCT(config_item) *) (buf + 1);
